@@ -48,6 +48,17 @@ Definition table_fn (o : anyop) : option opfn := lookup_op OPERATOR_TABLE o.
 
 Definition mem_str (x : string) (l : list string) : bool := existsb (String.eqb x) l.
 
+(* Builtins that are functions of their arguments only: no input, output, files, imports, code
+   execution, process exit, interpreter state (id, hash of str), interactive helpers.  TRUSTED list;
+   the regenerated whitelist of the tool must stay inside it (LitValProofs.pure_table_ok). *)
+Open Scope string_scope.
+Definition KNOWN_PURE : list string :=
+  ["abs"; "all"; "any"; "ascii"; "bin"; "bool"; "bytes"; "callable"; "chr"; "complex"; "dict"; "divmod";
+   "enumerate"; "filter"; "float"; "format"; "frozenset"; "hex"; "int"; "isinstance"; "issubclass"; "iter";
+   "len"; "list"; "map"; "max"; "min"; "oct"; "ord"; "pow"; "range"; "repr"; "reversed"; "round"; "set";
+   "slice"; "sorted"; "str"; "sum"; "tuple"; "type"; "zip"].
+Close Scope string_scope.
+
 (* ---------------- has_side_effect on expressions ---------------- *)
 (* every Attribute node below e (core.walk(node, ast.Attribute)) *)
 Fixpoint attrs_of (e : expr) : list string :=
